@@ -157,21 +157,33 @@ func runC03Consumers(cfg Config, rep *Report, rng *rand.Rand) {
 				return nil, err
 			}
 			b := make([]byte, ln)
-			n, err := io.ReadFull(r, b)
-			if err == io.ErrUnexpectedEOF || err == io.EOF {
-				err = nil
+			n, idle := 0, 0
+			for n < ln {
+				k, err := r.Read(b[n:])
+				n += k
+				if err == io.EOF {
+					break
+				}
+				if err != nil {
+					return b[:n], err
+				}
+				if k == 0 {
+					if idle++; idle > 3 {
+						return b[:n], fmt.Errorf("Read keeps returning 0 bytes and no error")
+					}
+				}
 			}
-			return b[:n], err
+			return b[:n], nil
 		}
 		checkRead := func(what string, off int64, b []byte, err error) {
 			if int(off)+len(b) > len(blob) || !bytes.Equal(b, blob[off:int(off)+len(b)]) {
 				monitor(fmt.Sprintf("%s returned bytes that differ from the blob at offset %d (%d bytes, err=%v) with a damaged chunk (%s)", what, off, len(b), err, kind), caseLine, "")
 			}
-			if err == nil && int(off)+len(b) < len(blob) && len(b) == 0 {
-				monitor(fmt.Sprintf("%s returned nothing and no error at offset %d", what, off), caseLine, "")
+			if err != nil && strings.Contains(err.Error(), "keeps returning 0 bytes") {
+				monitor(fmt.Sprintf("%s: %v (offset %d) with a damaged chunk (%s)", what, err, off, kind), caseLine, "")
 			}
 		}
-		guard(func() string {
+		if !returnsInTime(func() {
 			for k := 0; k < 24; k++ {
 				off := int64(rng.Intn(len(blob)))
 				if k%3 == 0 { // inside or just before the victim
@@ -191,11 +203,13 @@ func runC03Consumers(cfg Config, rep *Report, rng *rand.Rand) {
 					checkRead("the seekable reader (read inside the damaged chunk after an error)", o2, b, err3)
 				}
 			}
-			return ""
-		})
+		}) {
+			monitor("the seekable reader did not return within 20 s on a store with a damaged chunk ("+kind+")", caseLine, "")
+			break
+		}
 
 		// (3) the index mount's read path
-		guard(func() string {
+		if !returnsInTime(func() {
 			h := desync.VerifNewIndexFileHandle(idx, st)
 			for k := 0; k < 24; k++ {
 				off := int64(rng.Intn(len(blob)))
@@ -220,8 +234,10 @@ func runC03Consumers(cfg Config, rep *Report, rng *rand.Rand) {
 					}
 				}
 			}
-			return ""
-		})
+		}) {
+			monitor("the index mount's read path did not return within 20 s on a store with a damaged chunk ("+kind+")", caseLine, "")
+			break
+		}
 
 		// (4) untar from the index
 		if isCatar {
@@ -282,5 +298,22 @@ func runC03Consumers(cfg Config, rep *Report, rng *rand.Rand) {
 				return true
 			})
 		}
+	}
+}
+
+// returnsInTime runs f (panics recovered) and reports whether it came back within 20 s; a call
+// that does not is abandoned (its goroutine keeps spinning, so the caller should stop the phase)
+func returnsInTime(f func()) bool {
+	done := make(chan struct{})
+	go func() {
+		defer close(done)
+		defer func() { recover() }()
+		f()
+	}()
+	select {
+	case <-done:
+		return true
+	case <-time.After(20 * time.Second):
+		return false
 	}
 }
